@@ -89,7 +89,11 @@ fn judge_same(what: &str, expected: &Maps, observed: &Result<Maps, String>) -> V
 fn call<const N: usize>(rep: &mut Report, q: &Mappings<N, ()>, ns: &str, extend: bool, input: &dyn Fn() -> Value) -> Option<Result<Mappings<N, ()>, String>> {
     match guard(|| if extend { q.extend_inner_class_names(ns) } else { q.contract_inner_class_names(ns) }.map_err(|e| format!("{e:#}"))) {
         Err(p) => { rep.violation(format!("C11 panic {}", p.site()), json!({"panic": p.message, "call": if extend { "extend" } else { "contract" }, "input": input()})); None }
-        Ok(r) => { if let Ok(r) = &r { maps::watch(rep, "C11", if extend { "extend_inner_class_names" } else { "contract_inner_class_names" }, r, input); } Some(r) }
+        Ok(r) => { if let Ok(r) = &r {
+            maps::watch(rep, "C11", if extend { "extend_inner_class_names" } else { "contract_inner_class_names" }, r, input);
+            // the comment of the mapping set itself is a comment too ("leaves ... comments ... untouched")
+            if r.javadoc.as_ref().map(|j| &j.0) != q.javadoc.as_ref().map(|j| &j.0) { rep.violation(format!("C11 {}: comment of the mapping set itself changed", if extend { "extend" } else { "contract" }), json!({"input": input(), "before": q.javadoc.as_ref().map(|j| j.0.clone()), "after": r.javadoc.as_ref().map(|j| j.0.clone())})); }
+        } Some(r) }
     }
 }
 
@@ -120,7 +124,8 @@ fn case<const N: usize>(rng: &mut Rng, rep: &mut Report, cfg: &GenCfg) {
     rep.eval();
     rep.seen("target_namespace", &format!("N={N} index={t}"));
     let ns = m.namespaces[t].clone();
-    let q = maps::to_quill::<N, ()>(&m, &mut Ins::Shuffle(&mut rng.fork())).expect("expressible");
+    let mut q = maps::to_quill::<N, ()>(&m, &mut Ins::Shuffle(&mut rng.fork())).expect("expressible");
+    if rng.chance(1, 3) { q.javadoc = Some(quill::tree::mappings::JavadocMapping("comment of the set\nitself".into())); rep.count("set_level_comment.present"); }
     let input = || json!({"set": m.render(), "namespace": ns});
     for src in m.classes.keys() { rep.count(&format!("depth.{}", depth(src).min(4))); if split(src).is_some_and(|(o, _)| o.contains('/')) { rep.count("nested.outer_in_package"); } if split(src).is_none() && src.contains('$') { rep.count("source.dollar_but_top_level"); } }
 
